@@ -46,3 +46,27 @@ Print Assumptions C04_clips.
 Theorem C04_encode_tables : AllIdx (enc_ok Srgb 511 255) 0 enc8_srgb /\ AllIdx (enc_ok Adobe 511 255) 0 enc8_adobergb /\ AllIdx (enc_ok Prophoto 511 255) 0 enc8_prophotorgb.
 Proof. exact (conj enc8_srgb_ok (conj enc8_adobergb_ok enc8_prophotorgb_ok)). Qed.
 Print Assumptions C04_encode_tables.
+
+(* the last stage for EVERY float the matrix stage can produce in [0,1]: the destination code is within
+   1/2 + 2^-7 of 255*OETF at a sample within (1/2 + 2^-15)/511 of the value (srgb) *)
+Theorem C04_srgb_encode_accurate_for_every_float : forall v, is_finite v = true -> (0 <= B2R v <= 1)%R ->
+  exists k, 0 <= k <= 511 /\ (Rabs (IZR k - B2R v * IZR 511) <= /2 + bpow radix2 (9 - 24))%R /\
+            (Rabs (IZR (encode 511 K511 enc8_srgb v) - IZR 255 * oetf Srgb (IZR k / IZR 511)) <= tol)%R.
+Proof. exact (fun v => encode_accurate 511 K511 ltac:(lia) K511_ok enc8_srgb 255 enc8_srgb_len Srgb 9 v enc8_srgb_ok HE511). Qed.
+Print Assumptions C04_srgb_encode_accurate_for_every_float.
+
+(* the last stage for EVERY float the matrix stage can produce in [0,1]: the destination code is within
+   1/2 + 2^-7 of 255*OETF at a sample within (1/2 + 2^-15)/511 of the value (adobergb) *)
+Theorem C04_adobergb_encode_accurate_for_every_float : forall v, is_finite v = true -> (0 <= B2R v <= 1)%R ->
+  exists k, 0 <= k <= 511 /\ (Rabs (IZR k - B2R v * IZR 511) <= /2 + bpow radix2 (9 - 24))%R /\
+            (Rabs (IZR (encode 511 K511 enc8_adobergb v) - IZR 255 * oetf Adobe (IZR k / IZR 511)) <= tol)%R.
+Proof. exact (fun v => encode_accurate 511 K511 ltac:(lia) K511_ok enc8_adobergb 255 enc8_adobergb_len Adobe 9 v enc8_adobergb_ok HE511). Qed.
+Print Assumptions C04_adobergb_encode_accurate_for_every_float.
+
+(* the last stage for EVERY float the matrix stage can produce in [0,1]: the destination code is within
+   1/2 + 2^-7 of 255*OETF at a sample within (1/2 + 2^-15)/511 of the value (prophotorgb) *)
+Theorem C04_prophotorgb_encode_accurate_for_every_float : forall v, is_finite v = true -> (0 <= B2R v <= 1)%R ->
+  exists k, 0 <= k <= 511 /\ (Rabs (IZR k - B2R v * IZR 511) <= /2 + bpow radix2 (9 - 24))%R /\
+            (Rabs (IZR (encode 511 K511 enc8_prophotorgb v) - IZR 255 * oetf Prophoto (IZR k / IZR 511)) <= tol)%R.
+Proof. exact (fun v => encode_accurate 511 K511 ltac:(lia) K511_ok enc8_prophotorgb 255 enc8_prophotorgb_len Prophoto 9 v enc8_prophotorgb_ok HE511). Qed.
+Print Assumptions C04_prophotorgb_encode_accurate_for_every_float.
